@@ -18,6 +18,7 @@ BOUND = ("strategies: dimension-wise (GlobalTrapezoidalGrid boundary on/off, ver
          "min_evaluations in {1, n0, n0+1, n_j, n_k} where n_0..n_k (k<=8, d=3: k<=5, polynomial integrands: k<=3, d=3: k<=2; histories cut when n_j>2500) are the point counts of the unlimited run; "
          "seeded pseudo-random combinations")
 BOUND += "; fault / magnitude additions: two fixed histories (dimension-wise, extend-split): stop, three refused performSpatiallyAdaptiv requests, continuation"
+BOUND += "; round-10 additions: one fixed history continuing a tolerance-stopped run with tol 0 and tol -1 and a point limit"
 RULE = BOUND + "; a case is one (configuration, integrand, reference, tol, min, max); non-trivial = at least one refinement happened or a limit was met at the first evaluation"
 CLAUSES = {
     "B.stop.first": "with the returned arrays (err_j, n_j): the condition (err_j<=tol and n_j>=min) or (max given and n_j>max) is false for every "
